@@ -1,7 +1,8 @@
 #!/usr/bin/env python3
 """merge /tmp/mt/results.tsv (written by seed_all_scratch.sh) into the seeds' meta.json files"""
-import json, sys
-rows = [l.rstrip('\n').split('\t') for l in open('/tmp/mt/results.tsv') if '\t' in l]
+import json, sys, os
+MT = os.environ.get('MT', '/tmp/mt')
+rows = [l.rstrip('\n').split('\t') for l in open(MT + '/results.tsv') if '\t' in l]
 for seed, cid, rc, first in rows:
     if cid == '-': print('!!', seed, first); continue
     p = f'/verif/seeded/{seed}/meta.json'
